@@ -12,6 +12,11 @@ import (
 
 type isIface interface{ Is(error) bool }
 
+// userPlainTwin has the same underlying type as gen.UserPlain but is another type.
+type userPlainTwin struct{ Msg string }
+
+func (e *userPlainTwin) Error() string { return e.Msg }
+
 // UserAs has its own As method.
 type UserAs struct{ Msg string }
 
@@ -92,6 +97,10 @@ func H_C14_Compat(v *sym.V) {
 	if g3 && w3 {
 		v.Assert("as-value-value", t3.Msg == s3.Msg)
 	}
+	// a type that is convertible to, but not the same as, a type in the chain
+	var t4, s4 *userPlainTwin
+	g4, w4 := errors.As(e, &t4), stderrors.As(e, &s4)
+	v.Assert("as-twin-agree", g4 == w4)
 	// the standard library traverses library-built chains
 	root := errors.UnwrapAll(e)
 	if _, nc := root.(gen.UserNonComparable); !nc {
